@@ -298,26 +298,50 @@ class SymNum(Sym):
     def simplified(self):
         return self
 
+    # arithmetic with +-inf (python float) follows IEEE: decided without the solver except for the sign of a factor
+    @staticmethod
+    def _isinf(o):
+        return isinstance(o, float) and math.isinf(o)
+
+    def _signed_inf(s, o):
+        if SymBool(s.t > 0):
+            return o
+        if SymBool(s.t < 0):
+            return -o
+        return float("nan")
+
     def __add__(s, o):
+        if s._isinf(o):
+            return o
         return s._bin(o, lambda a, b: a + b)
 
     def __radd__(s, o):
+        if s._isinf(o):
+            return o
         return s._bin(o, lambda a, b: a + b, True)
 
     def __sub__(s, o):
+        if s._isinf(o):
+            return -o
         return s._bin(o, lambda a, b: a - b)
 
     def __rsub__(s, o):
+        if s._isinf(o):
+            return o
         return s._bin(o, lambda a, b: a - b, True)
 
     def __mul__(s, o):
         if isinstance(o, str):
             return NotImplemented
+        if s._isinf(o):
+            return s._signed_inf(o)
         return s._bin(o, lambda a, b: a * b)
 
     def __rmul__(s, o):
         if isinstance(o, str):
             return SegStr([(o, s)])
+        if s._isinf(o):
+            return s._signed_inf(o)
         return s._bin(o, lambda a, b: a * b, True)
 
     def __neg__(s):
@@ -330,9 +354,13 @@ class SymNum(Sym):
         return SymNum(z3.If(s.t >= 0, s.t, -s.t))
 
     def __truediv__(s, o):
+        if s._isinf(o):
+            return 0.0
         return s._bin(o, lambda a, b: toreal(a) / toreal(b))
 
     def __rtruediv__(s, o):
+        if s._isinf(o):
+            return s._signed_inf(o)
         return s._bin(o, lambda a, b: toreal(a) / toreal(b), True)
 
     def __floordiv__(s, o):
